@@ -438,7 +438,12 @@ def conc_check(run):
                        "channels_unbounded": info.get("chan_unbounded"),
                        "search_space": "every ordered pair of handler main paths together with two iterations of every background loop; "
                                        "a bounded channel starts full"}
-    if out[1] != "none":
+    unnamed = any(p_["module"] == "Server" and "could not be named" in p_["what"] for p_ in (run.extract_meta or {}).get("problems", []))
+    if out[1] != "none" and unnamed:
+        # a lock the translator cannot name is mapped onto a known one in the generated lists: a schedule found then is an artefact
+        run.cov["conc"]["deadlock_search"] = "not meaningful: " + out[1][:80]
+        run.failures.append(cl.Failure("proof", "a lock of the server is outside the modelled three: the interleaving model does not describe this code"))
+    elif out[1] != "none":
         w = {"kind": "model-deadlock", "threads": out[1].split(" schedule=")[0].replace("deadlock threads=", "").split(","),
              "schedule": out[1].split(" schedule=")[1].split(" ") if " schedule=" in out[1] else [],
              "meaning": "interleaving of the extracted event lists (one event of the named thread per step) after which every "
